@@ -105,7 +105,7 @@ class StreamItemQueue:
             # before delivering the failure
             self._aborted = self._failed = True
             await self._settle_pending()
-            on_abort = self._on_abort
+            on_abort = self._take_on_abort()
             if on_abort is not None:
                 cleanup = on_abort(error)
                 if is_awaitable(cleanup):
@@ -231,13 +231,20 @@ class StreamItemQueue:
             future.cancel()
         if not running and not self._pending_futures:
             # nothing to cancel asynchronously, just run the cleanup callback
-            on_abort = self._on_abort
+            on_abort = self._take_on_abort()
             if on_abort is not None:
                 cleanup = on_abort(reason)
                 if is_awaitable(cleanup):
                     return cleanup
             return None
         return self._cleanup(reason)
+
+    def _take_on_abort(
+        self,
+    ) -> Callable[[BaseException | None], Awaitable[None] | None] | None:
+        """Get the cleanup callback, making sure that it is run only once."""
+        on_abort, self._on_abort = self._on_abort, None
+        return on_abort
 
     async def _settle_parked(self) -> None:
         """Await the cancelled parked producer and settle pending item futures."""
@@ -263,7 +270,7 @@ class StreamItemQueue:
             self._producer_cancelled = True
             await gather(producer_task, return_exceptions=True)
         await self._settle_pending()
-        on_abort = self._on_abort
+        on_abort = self._take_on_abort()
         if on_abort is not None:
             cleanup = on_abort(reason)
             if is_awaitable(cleanup):
